@@ -88,6 +88,7 @@ func (c *Ctx) Thorough() bool { return c.Tier == "thorough" }
 // NewSim creates the scheduler for this run (a run may use several, one after
 // the other).
 func (c *Ctx) NewSim() *rt.Sim {
+	progress.Add(1) // a run made of many simulations is alive as long as it starts new ones
 	s := rt.New(c.T)
 	s.KeepTrace = c.Detail
 	c.sims = append(c.sims, s)
